@@ -413,6 +413,7 @@ def _add_custom_parameters(
         lambda dataset: dataset.expand_dims({"id": [index]})
     )
 
+    num_multi_dims: int = 0
     for coordinate_name, param_value in parameter_dict.items():
         short_name: str = dimension_names[coordinate_name]
 
@@ -426,7 +427,13 @@ def _add_custom_parameters(
 
         elif types[coordinate_name] == ParameterType.Multi:
             data = np.array(param_value)
-            data_array = xr.DataArray(data).expand_dims({"id": [index]})
+
+            # Each vector-valued parameter gets its own dimension(s) ('dim_0', 'dim_1', ...),
+            # two of them may have different lengths
+            dims = [f"dim_{num_multi_dims + i}" for i in range(data.ndim)]
+            num_multi_dims += data.ndim
+
+            data_array = xr.DataArray(data, dims=dims).expand_dims({"id": [index]})
             data_tree = data_tree.map_over_datasets(  # type: ignore[assignment]
                 lambda dataset: dataset.assign_coords({short_name: data_array})
             )
